@@ -87,7 +87,8 @@ impl Msg {
 
 // ------------------------------------------------------------------ Coq rendering (run-length compressed)
 
-/// `list N` term: literal chunks of at most 200 bytes and `rpt n b` runs, joined by `++`.
+/// `list N` term: literal chunks of at most 200 bytes, `rpt n b` runs and `rptb n pattern`
+/// periodic stretches, joined by `++`.
 fn cbytes(b: &[u8]) -> String {
     if b.is_empty() {
         return "[]".into();
@@ -102,24 +103,38 @@ fn cbytes(b: &[u8]) -> String {
     };
     let mut i = 0;
     while i < b.len() {
-        let mut j = i;
-        while j < b.len() && b[j] == b[i] {
-            j += 1;
+        // longest stretch starting at i that is periodic with period p (p = 1: a run)
+        let mut best = (1usize, 1usize); // (period, length)
+        if b.len() - i >= 24 {
+            for p in [1usize, 22, 54, 2, 4, 20, 32, 52, 64] {
+                if i + p >= b.len() {
+                    continue;
+                }
+                let mut j = i + p;
+                while j < b.len() && b[j] == b[j - p] {
+                    j += 1;
+                }
+                let len = ((j - i) / p) * p;
+                if len >= 24.max(3 * p) && len > best.1 {
+                    best = (p, len);
+                }
+            }
         }
-        if j - i >= 24 {
+        if best.1 > 1 {
             flush(&mut lit, &mut parts);
-            parts.push(format!("rpt {} {}", j - i, b[i]));
+            if best.0 == 1 {
+                parts.push(format!("rpt {} {}", best.1, b[i]));
+            } else {
+                parts.push(format!("rptb {} {}", best.1 / best.0, b[i..i + best.0].coq()));
+            }
+            i += best.1;
         } else {
-            lit.extend_from_slice(&b[i..j]);
+            lit.push(b[i]);
+            i += 1;
         }
-        i = j;
     }
     flush(&mut lit, &mut parts);
-    if parts.len() == 1 {
-        parts.pop().unwrap()
-    } else {
-        format!("({})", parts.join(" ++ "))
-    }
+    format!("({})", parts.join(" ++ "))
 }
 
 /// list of items: runs of equal items become `rptl n item`, the rest literal chunks.
@@ -152,11 +167,7 @@ fn clist<T: PartialEq>(xs: &[T], f: impl Fn(&T) -> String) -> String {
         i = j;
     }
     flush(&mut lit, &mut parts);
-    if parts.len() == 1 {
-        parts.pop().unwrap()
-    } else {
-        format!("({})", parts.join(" ++ "))
-    }
+    format!("({})", parts.join(" ++ "))
 }
 
 fn caddr(a: &Addr) -> String {
@@ -523,7 +534,7 @@ fn count(r: &mut Rng, p: Profile, limit: usize, typical: u64) -> usize {
 
 fn gen_items<T: Clone>(r: &mut Rng, n: usize, mut f: impl FnMut(&mut Rng) -> T) -> Vec<T> {
     // large vectors are mostly repetitive (compact case files), with a few distinct items
-    if n > 64 && !r.chance(1, 6) {
+    if n > 64 && !r.chance(1, 12) {
         let base = f(r);
         let mut v = vec![base; n];
         for _ in 0..r.below(6) {
@@ -703,7 +714,7 @@ fn decode_case(run: &mut Run, id: &str, bs: &[u8], origin: &str) {
                         run.fail(id, "reencoding-exceeds-frame", format!("re-encoding has {} bytes", re.len()), json!({"bytes": hex(bs)}));
                     }
                     if re == bs {
-                        if origin != "d" && origin != "q" {
+                        if origin != "d" && origin != "q" && origin != "b" {
                             run.nontrivial(format!("{:x?}", &bs[..bs.len().min(64)]));
                         }
                     } else if is_agent_exception(&m, bs, &re) {
@@ -917,7 +928,7 @@ impl<'a> G<'a> {
     }
     fn count(&mut self, limit: usize, what: &'static str) -> (u16, usize) {
         // (declared, actually present)
-        let n = if self.r.chance(1, 12) { *self.r.pick(&[limit, limit - 1]) } else { self.r.below(6) as usize };
+        let n = if self.r.chance(1, 40) { *self.r.pick(&[limit, limit - 1]) } else { self.r.below(6) as usize };
         if self.hit(what) {
             match self.r.below(4) {
                 0 => ((limit + 1) as u16, limit + 1),       // over the limit, all items present
@@ -1176,6 +1187,7 @@ fn main() {
          s: string checks. Non-trivial = a byte string that is NOT a plain encoder output (mutated / grammar-built) and still decodes, so that \
          the re-encoding comparison is a real test; distinct by its first 64 bytes.",
     );
+    run.preamble = "From HW Require Import model.WireVarint.".into();
     let seed = run.args.seed;
 
     // --- constants: regenerate coq/gen/ConstsWire.v and compare with what the model was built with
@@ -1207,8 +1219,49 @@ fn main() {
         }
     }
 
+    // --- b: one message of every type exactly at every limit (every run, both directions)
+    {
+        let mut r = Rng::for_case(seed, 5, 0);
+        let lim_node = |r: &mut Rng, dns: usize, alias: usize, agent: usize| {
+            let addresses = (0..ADDRESS_LIMIT).map(|_| Addr { host: Host::Dns(dns_str(r, dns)), port: 65535 }).collect();
+            Msg::Announcement(arr(r), arr(r), Ann::Node(NodeAnn {
+                version: 255, features: u64::MAX, timestamp: *Timestamp::MAX, alias: alias_valid_str(r, alias),
+                addresses, nonce: u64::MAX, agent: agent_valid_str(r, agent),
+            }))
+        };
+        let max_agent = c.scalars.iter().find(|(k, _)| *k == "MAX_AGENT_LENGTH").unwrap().1 as usize;
+        let mut boundary: Vec<Msg> = vec![
+            Msg::Announcement(arr(&mut r), arr(&mut r), Ann::Inventory(vec![arr::<20>(&mut r); INVENTORY_LIMIT], *Timestamp::MAX)),
+            Msg::Announcement(arr(&mut r), arr(&mut r), Ann::Refs(arr(&mut r), vec![(arr::<32>(&mut r), arr::<20>(&mut r)); REF_REMOTE_LIMIT], *Timestamp::MAX)),
+            lim_node(&mut r, 255, radicle::node::MAX_ALIAS_LENGTH, max_agent),
+            Msg::Ping(u16::MAX, Ping::MAX_PING_ZEROES),
+            Msg::Pong(Ping::MAX_PONG_ZEROES),
+            Msg::Info([0xff; 20], [0; 20]),
+        ];
+        for size in FILTER_SIZES {
+            boundary.push(Msg::Subscribe(vec![0xff; size], 0, *Timestamp::MAX));
+        }
+        for (k, m) in boundary.iter().enumerate() {
+            let (ide, idd) = (format!("b:{}", k), format!("b:{}d", k));
+            if !run.args.wants(&ide) && !run.args.wants(&idd) {
+                continue;
+            }
+            let Some(real) = to_real(m) else {
+                run.fail(&ide, "boundary-message-not-constructible", format!("the {} message at its limits cannot be constructed", m.kind()), json!({}));
+                continue;
+            };
+            let enc = if run.args.wants(&ide) { encode_case(&mut run, &ide, m, &real, true, "b") } else { observe_encode(&real).bytes() };
+            if let Some(b) = enc {
+                run.tally(&format!("b:len:{}:{}", m.kind(), b.len()));
+                if run.args.wants(&idd) {
+                    decode_case(&mut run, &idd, &b, "b");
+                }
+            }
+        }
+    }
+
     // --- e/d: structured messages
-    let n = run.args.count(420, 6000);
+    let n = run.args.count(420, 4000);
     for i in 0..n {
         let (ide, idd) = (format!("e:{}", i), format!("d:{}", i));
         if !run.args.wants(&ide) && !run.args.wants(&idd) {
@@ -1219,7 +1272,7 @@ fn main() {
         // large messages are expensive on the Coq side: thin them out
         let kind = i / 10 + i % 7;
         let mut m = gen_msg(&mut r, kind, profile);
-        if profile != Profile::Typical && i % 40 >= 10 {
+        if profile != Profile::Typical && i % 120 >= 10 {
             // most limit/over cases use the small-payload types; the big ones (inventory, refs,
             // padding, large filters) come every fourth block
             if matches!(m.kind(), "inventory" | "refs" | "ping" | "pong" | "subscribe") {
@@ -1242,7 +1295,7 @@ fn main() {
     }
 
     // --- q: the crate's own Arbitrary messages
-    let n = run.args.count(150, 3000);
+    let n = run.args.count(150, 1500);
     for i in 0..n {
         let id = format!("q:{}", i);
         if !run.args.wants(&id) {
@@ -1260,14 +1313,14 @@ fn main() {
     }
 
     // --- m: mutations
-    let n = run.args.count(700, 12000);
+    let n = run.args.count(700, 8000);
     for i in 0..n {
         let id = format!("m:{}", i);
         if !run.args.wants(&id) {
             continue;
         }
         let mut r = Rng::for_case(seed, 1, i);
-        let profile = if i % 60 == 0 { Profile::Limit } else { Profile::Typical };
+        let profile = if i % 100 == 0 { Profile::Limit } else { Profile::Typical };
         let m = gen_msg(&mut r, i, profile);
         let Some(real) = to_real(&m) else { continue };
         let Some(enc) = observe_encode(&real).bytes() else { continue };
@@ -1277,7 +1330,7 @@ fn main() {
     }
 
     // --- g: grammar-directed
-    let n = run.args.count(600, 10000);
+    let n = run.args.count(600, 6000);
     for i in 0..n {
         let id = format!("g:{}", i);
         if !run.args.wants(&id) {
@@ -1296,7 +1349,7 @@ fn main() {
     }
 
     // --- s: strings
-    let n = run.args.count(600, 10000);
+    let n = run.args.count(600, 6000);
     for i in 0..n {
         let id = format!("s:{}", i);
         if !run.args.wants(&id) {
